@@ -19,25 +19,31 @@ package factor
 
 import (
 	"errors"
+	"sync"
 
 	"seata.apache.org/seata-go/pkg/datasource/sql/types"
 	"seata.apache.org/seata-go/pkg/datasource/sql/undo"
 	"seata.apache.org/seata-go/pkg/datasource/sql/undo/executor"
 )
 
-var undoExecutorHolderMap map[types.DBType]undo.UndoExecutorHolder
+var (
+	undoExecutorHolderMap  map[types.DBType]undo.UndoExecutorHolder
+	undoExecutorHolderOnce sync.Once
+)
 
 var ErrNotImplDBType = errors.New("db type executor not implement")
 
 // GetUndoExecutorHolder get exactly executor holder
 func GetUndoExecutorHolder(dbType types.DBType) (undo.UndoExecutorHolder, error) {
-	// lazy init
-	if undoExecutorHolderMap == nil {
-		undoExecutorHolderMap = map[types.DBType]undo.UndoExecutorHolder{
-			// todo impl oracle, mariadb, postgresql etc ...
-			types.DBTypeMySQL: executor.NewMySQLUndoExecutorHolder(),
+	// lazy init, once: branch rollbacks run concurrently
+	undoExecutorHolderOnce.Do(func() {
+		if undoExecutorHolderMap == nil {
+			undoExecutorHolderMap = map[types.DBType]undo.UndoExecutorHolder{
+				// todo impl oracle, mariadb, postgresql etc ...
+				types.DBTypeMySQL: executor.NewMySQLUndoExecutorHolder(),
+			}
 		}
-	}
+	})
 
 	if executorHolder, ok := undoExecutorHolderMap[dbType]; ok {
 		return executorHolder, nil
